@@ -15,6 +15,8 @@ enum Mode {
     Trap,
     Int3,
     FlagInt3,
+    /// trap-flag episodes (switched on, off, possibly on again) in a program that also has INT 3 breakpoints
+    TrapInt3,
 }
 
 /// prompt artefacts removed from one inter-record segment
@@ -48,6 +50,9 @@ fn strip_artifacts(seg: &[u8]) -> Stripped {
         if let Ok(n) = num.parse() {
             st.announced.push(n);
         }
+        // the last integer of the piece: the line named by "Int 3 at line N" (its first integer is the 3)
+        let digits: Vec<&str> = p.split(|c: char| !c.is_ascii_digit()).filter(|t| !t.is_empty()).collect();
+        st.int3_lines.push(digits.last().and_then(|t| t.parse().ok()).unwrap_or(usize::MAX));
         if p.to_ascii_lowercase().contains("trap") {
             st.trap_notes += 1;
         }
@@ -85,7 +90,7 @@ struct Case {
 }
 
 fn make_case(rng: &mut Rng, mode: Mode) -> Case {
-    let o = SOpts { prints: true, int3: matches!(mode, Mode::Int3 | Mode::FlagInt3), macros: true, procs: true, out_chars: true, max_blocks: 2 + rng.below(6) };
+    let o = SOpts { prints: true, int3: matches!(mode, Mode::Int3 | Mode::FlagInt3 | Mode::TrapInt3), macros: true, procs: true, out_chars: true, max_blocks: 2 + rng.below(6) };
     let mut p = structured_program(rng, &o);
     // -i mode only (one prompt per instruction: the script can be interleaved exactly): the program reads lines from
     // the console and keeps what it read in memory (stack / buffer)
@@ -116,13 +121,15 @@ fn make_case(rng: &mut Rng, mode: Mode) -> Case {
     let mut stepped = p.clone();
     let mut plain = p.clone();
     replace_int3(&mut plain.items);
-    if mode == Mode::Trap {
+    if matches!(mode, Mode::Trap | Mode::TrapInt3) {
         let si = stepped.items.iter().position(|i| matches!(i, Item::Label(l) if l == "start")).unwrap();
-        let f = rng.u16() & 0x0ED5 & !TF;
+        // the breakpoint-free twin has CLD where the stepped program has INT 3: with breakpoints around, DF stays clear
+        let dfm: u16 = if mode == Mode::TrapInt3 { !0x0400 } else { !0 };
+        let f = rng.u16() & 0x0ED5 & !TF & dfm;
         // optionally switch stepping off again later
-        let later = if rng.chance(1, 2) && stepped.items.len() > si + 2 { Some(si + 1 + rng.below(stepped.items.len() - si - 1)) } else { None };
+        let later = if (mode == Mode::TrapInt3 || rng.chance(1, 2)) && stepped.items.len() > si + 2 { Some(si + 1 + rng.below(stepped.items.len() - si - 1)) } else { None };
         if let Some(at) = later {
-            let f2 = rng.u16() & 0x0ED5 & !TF;
+            let f2 = rng.u16() & 0x0ED5 & !TF & dfm;
             let on_again = rng.chance(1, 3);
             let b_step = flags_block(if on_again { f2 | TF } else { f2 }, 9001);
             let b_plain = flags_block(f2, 9001);
@@ -328,6 +335,21 @@ pub fn run_case(rep: &Report, c: &Case, rng: &mut Rng, core: Option<usize>) {
                 rep.count("trap-flag notes missing (not judged)", 1);
             }
         }
+        if is_int3 && is_program_ins && st.prompts == want {
+            // the breakpoint's own prompt is the last one of the segment: it names the line of the INT 3, whatever
+            // stepping mechanism was active before it (or was switched off before it)
+            let line = c.stepped.pos.get(r.idx).map(|p| p.line).unwrap_or(0);
+            rep.count("breakpoint prompts whose line was compared", 1);
+            if st.int3_lines.last() != Some(&line) {
+                fail(
+                    format!("step:int3-line:{}", if interpreted { "interpreted" } else if r.tf { "trap-flag-on" } else if fp.recs[..k].iter().any(|x| x.tf) { "after-trap-flag-episode" } else { "plain" }),
+                    "C20: the breakpoint prompt names a different line than the one of the INT 3 that raised it".into(),
+                    format!("idx {} is on source line {} but the prompt says {:?}", r.idx, line, st.int3_lines.last()),
+                    &nexts,
+                    &full,
+                );
+            }
+        }
         for _ in 0..st.prompts {
             prompt_pos.push(k);
         }
@@ -388,7 +410,7 @@ pub fn run_case(rep: &Report, c: &Case, rng: &mut Rng, core: Option<usize>) {
                 }
             }
             // the word pushed to load the flags differs in the trap bit by construction
-            let excl: Vec<usize> = if c.mode == Mode::Trap { vec![0xFFFE, 0xFFFF] } else { vec![] };
+            let excl: Vec<usize> = if matches!(c.mode, Mode::Trap | Mode::TrapInt3) { vec![0xFFFE, 0xFFFF] } else { vec![] };
             if let Some(a) = (0..mem.len()).find(|a| mem[*a] != bfinal.1[*a] && !excl.contains(a)) {
                 d.push(format!("mem[{:05x}]", a));
             }
@@ -663,7 +685,7 @@ pub fn run(rep: &Report) {
     par_for(ncore + nrand, 1, |i| {
         let core = i < ncore;
         let mut rng = if core { Rng::new(0xC20).fork(i as u64) } else { Rng::new(seed).fork(0xC20_0000 + i as u64) };
-        let mode = [Mode::Flag, Mode::Trap, Mode::Int3, Mode::FlagInt3][i % 4];
+        let mode = [Mode::Flag, Mode::Trap, Mode::Int3, Mode::FlagInt3, Mode::TrapInt3][i % 5];
         let c = make_case(&mut rng, mode);
         run_case(rep, &c, &mut rng, if core { Some(i) } else { None });
     });
@@ -671,4 +693,4 @@ pub fn run(rep: &Report) {
     rep.floor("prompt histories run", rep.counter("prompt histories run"), 600);
 }
 
-pub const RULE: &str = "random terminating structured programs (jumps, counted loops, procedures, macro uses, print statements, INT 21h/2 character output) in four stepping modes: -i flag, trap flag set (and possibly cleared / set again later) through POPF, INT 3 breakpoints at random places, -i plus INT 3; each has a trigger-free twin with the same lines and instruction count. Runs per program: the twin plain; the stepped program with every prompt answered by a spelling of 'next'; three scripted prompt histories mixing n/next spellings, print commands, garbage, ending by q/quit, by end of input (also in the middle of a line) or by program completion. Oracle: (transparency) stdout with prompt artefacts removed and the final registers/flags (trap bit masked)/full memory equal the plain twin's; (one prompt per instruction) between consecutive hook records there is exactly one prompt when stepping is active for a program instruction, one more after an INT 3, none for the driver's appended hlt, and the announced line number is the generator-known line of that instruction; (history model) the hook-record sequence under a script equals the prefix predicted by the model: print/garbage never advance, next advances exactly one instruction, quit and end of input stop without executing anything further, prompts shown = commands read (+1 at end of input); no run may abort or spin (output cap 4 MiB with a watchdog). Fixed edge scenarios cover programs of 0/1 instructions, TF set by the last instruction, INT 3 last, quit/EOF at the first prompt, and a stdin on which every read fails. Distinct = (mode, prompt/record count class) and (mode, ending kind, stop position, print-command count). -i twins whose program reads console input (INT 21h AH=1 / AH=0Ah), the stepped run's script interleaved exactly from the plain run's trace; answers and garbage lines of 4 KiB..70 KB; scale variants (line numbers beyond 255 / 65535, columns beyond 255). A prompt line that is not valid UTF-8, then a print (must be answered) and q (must end the run), under -i, trap flag and INT 3.";
+pub const RULE: &str = "random terminating structured programs (jumps, counted loops, procedures, macro uses, print statements, INT 21h/2 character output) in five stepping modes: -i flag, trap flag set (and possibly cleared / set again later) through POPF, INT 3 breakpoints at random places, -i plus INT 3, trap-flag episodes plus INT 3 (breakpoints inside, between and after episodes: the breakpoint prompt must name the line of its INT 3); each has a trigger-free twin with the same lines and instruction count. Runs per program: the twin plain; the stepped program with every prompt answered by a spelling of 'next'; three scripted prompt histories mixing n/next spellings, print commands, garbage, ending by q/quit, by end of input (also in the middle of a line) or by program completion. Oracle: (transparency) stdout with prompt artefacts removed and the final registers/flags (trap bit masked)/full memory equal the plain twin's; (one prompt per instruction) between consecutive hook records there is exactly one prompt when stepping is active for a program instruction, one more after an INT 3, none for the driver's appended hlt, and the announced line number is the generator-known line of that instruction; (history model) the hook-record sequence under a script equals the prefix predicted by the model: print/garbage never advance, next advances exactly one instruction, quit and end of input stop without executing anything further, prompts shown = commands read (+1 at end of input); no run may abort or spin (output cap 4 MiB with a watchdog). Fixed edge scenarios cover programs of 0/1 instructions, TF set by the last instruction, INT 3 last, quit/EOF at the first prompt, and a stdin on which every read fails. Distinct = (mode, prompt/record count class) and (mode, ending kind, stop position, print-command count). -i twins whose program reads console input (INT 21h AH=1 / AH=0Ah), the stepped run's script interleaved exactly from the plain run's trace; answers and garbage lines of 4 KiB..70 KB; scale variants (line numbers beyond 255 / 65535, columns beyond 255). A prompt line that is not valid UTF-8, then a print (must be answered) and q (must end the run), under -i, trap flag and INT 3.";
